@@ -842,3 +842,100 @@ M('H-next-complete-any', 'C18', 'C18.H', P2P,
             .any(|handle| inputs.contains_key(handle))
         {
             Some(next_frame)""", 'a frame counts as complete once any local handle has an entry')
+
+# neutral spellings for the helper / codec-table / wiring rules
+N('rle-fill-shift-spelling', ['C14', 'C03'], COMP,
+  "let fill = if value & 2 != 0 { 255 } else { 0 };", "let fill = if (value >> 1) & 1 == 1 { 255 } else { 0 };", 'same bit, tested after a shift')
+N('rle-fill-inverted-branches', ['C14'], COMP,
+  "let fill = if value & 2 != 0 { 255 } else { 0 };", "let fill = if value & 2 == 0 { 0 } else { 255 };", 'branches swapped')
+N('queue-positive-guard', ['C11', 'C18'], P2P,
+  """        if self.player_reg.remotes.is_empty() {
+            return;
+        }
+        self.outgoing_local_inputs
+            .entry(input.frame)
+            .or_default()
+            .insert(player_handle, input);""", """        if !self.player_reg.remotes.is_empty() {
+            self.outgoing_local_inputs
+                .entry(input.frame)
+                .or_default()
+                .insert(player_handle, input);
+        }""", 'guard written positively')
+N('cells-inclusive-range', ['C02', 'C13', 'C16', 'C04'], SL,
+  """        let num_cells = max_pred + 1;
+        let mut states = Vec::with_capacity(num_cells);
+        for _ in 0..num_cells {
+            states.push(GameStateCell::default());
+        }
+""", """        let mut states = Vec::with_capacity(max_pred + 1);
+        for _ in 0..=max_pred {
+            states.push(GameStateCell::default());
+        }
+""", 'same number of cells, inclusive range')
+N('cells-iterator', ['C02', 'C13'], SL,
+  """        let num_cells = max_pred + 1;
+        let mut states = Vec::with_capacity(num_cells);
+        for _ in 0..num_cells {
+            states.push(GameStateCell::default());
+        }
+""", """        let states: Vec<_> = (0..max_pred + 1).map(|_| GameStateCell::default()).collect();
+""", 'same number of cells, iterator')
+N('last-recv-frame-keys-max', ['C01', 'C05', 'C08'], PROTO,
+  """        match self.recv_inputs.iter().max_by_key(|&(k, _)| k) {
+            Some((k, _)) => *k,
+            None => NULL_FRAME,
+        }""", """        self.recv_inputs.keys().max().copied().unwrap_or(NULL_FRAME)""", 'largest key via keys().max()')
+N('prev-pos-modular', ALL, IQ,
+  """        if head == 0 {
+            INPUT_QUEUE_LENGTH - 1
+        } else {
+            head - 1
+        }""", """        (head + INPUT_QUEUE_LENGTH - 1) % INPUT_QUEUE_LENGTH""", 'ring predecessor written with modular arithmetic')
+N('is-synchronized-matches', ['C12', 'C05', 'C07'], PROTO,
+  """        self.state == ProtocolState::Running
+            || self.state == ProtocolState::Disconnected
+            || self.state == ProtocolState::Shutdown""", """        matches!(
+            self.state,
+            ProtocolState::Running | ProtocolState::Disconnected | ProtocolState::Shutdown
+        )""", 'same three states with matches!')
+N('input-matches-swapped-operands', ['C03', 'C01'], 'src/frame_info.rs',
+  """    pub(crate) fn input_matches(&self, other: &Self) -> bool {
+        self.input == other.input""", """    pub(crate) fn input_matches(&self, other: &Self) -> bool {
+        other.input == self.input""", 'operands swapped')
+
+# wiring / codec table / queue guard
+M('W-swap-timeouts-p2p-endpoint', 'C07', 'C07.W', BUILDER,
+  """            local_players,
+            self.max_prediction,
+            self.disconnect_timeout,
+            self.disconnect_notify_start,""", """            local_players,
+            self.max_prediction,
+            self.disconnect_notify_start,
+            self.disconnect_timeout,""", 'timeout and notify delay crossed at the P2P endpoint constructor call')
+M('W-swap-fields-in-endpoint', 'C12', 'C12.W', PROTO,
+  """            disconnect_timeout,
+            disconnect_notify_start,""", """            disconnect_timeout: disconnect_notify_start,
+            disconnect_notify_start: disconnect_timeout,""", 'fields crossed inside UdpProtocol::new')
+M('C14-run-length-shift', 'C14', 'C14.O4', COMP,
+  "let len = if is_run { value >> 2 } else { value >> 1 };", "let len = if is_run { value >> 1 } else { value >> 1 };", 'run length read with the literal shift')
+M('C14-run-flag-inverted', 'C14', 'C14.O4', COMP,
+  "let is_run = value & 1 != 0;", "let is_run = value & 1 == 0;", 'run / literal flag inverted')
+M('C14-encode-skip-first', 'C14', 'C14.O2', COMP,
+  "let buf = delta_encode(reference, pending_input);", "let buf = delta_encode(reference, pending_input.skip(0).take(64));", 'sequence truncated before encoding')
+M('C11-queue-only-when-running', 'C11', 'C11.O1b', P2P,
+  """        if self.player_reg.remotes.is_empty() {
+            return;
+        }
+        self.outgoing_local_inputs
+            .entry(input.frame)""", """        if self.player_reg.remotes.is_empty() || self.state != SessionState::Running {
+            return;
+        }
+        self.outgoing_local_inputs
+            .entry(input.frame)""", 'announced fills are dropped before the session runs')
+
+# initial state (rules/initial.py)
+M('I-cadence-gate-closed-at-start', 'C15', 'C15.I', P2P, "next_recommended_sleep: 0,", "next_recommended_sleep: 60,", 'no recommendation during the first second')
+M('I-checksum-cursor-zero', 'C09', 'C09.I', P2P, "last_sent_checksum_frame: NULL_FRAME,", "last_sent_checksum_frame: 0,", 'frame 0 counts as already reported')
+M('I-last-requested-zero', 'C01', 'C01.I', IQ, "last_requested_frame: NULL_FRAME,", "last_requested_frame: 0,", 'discard bound starts at 0 instead of none')
+M('I-spectator-starts-at-zero', 'C06', 'C06.I', SPEC, "current_frame: NULL_FRAME,", "current_frame: 0,", 'the spectator skips frame 0')
+M('I-event-latch-set', 'C07', 'C07.I', PROTO, "disconnect_event_sent: false,", "disconnect_event_sent: true,", 'Disconnected can never be emitted')
